@@ -317,6 +317,10 @@ TREE = {
     't/root_evil/secret.txt', 't/root_evil/a', 't/root_evil/sub/deep.txt', 't/root_evil/root/x',
     't/rootx', 't/root.bak/in.txt', 't/other/in.txt', 't/roo/in.txt',
     'elsewhere/data.txt',
+    # files INSIDE the root whose literal names contain backslashes (ordinary characters on POSIX): the name validates as
+    # inside, the File handle built from it stores the name with '\\' turned into '/', i.e. a path that leaves the root
+    't/root/..\\above.txt', 't/root/..\\root_evil\\secret.txt', 't/root/sub\\..\\..\\above.txt',
+    't/root/sub/..\\in.txt', 't/root/sub/..\\sub_evil\\x.txt',
 }
 # (label, root relative to BASE or spelled otherwise, how it is passed)
 ROOT_CONFIGS = [
@@ -329,7 +333,7 @@ ROOT_CONFIGS = [
     ('nested', '{BASE}/t/root/sub'),           # sibling t/root/sub_evil extends its name
 ]
 CHAIN_PREFIXES = [None, '', 'sub', 'sub/']
-OPS = ['contains', 'getitem', 'open_bin', 'open_str', 'walk']
+OPS = ['contains', 'getitem', 'open_bin', 'open_str', 'walk', 'handle_loose', 'handle_made']
 SEGS = ['..', '..', '.', '', 'in.txt', 'a', 'sub', 'deep.txt', 'root', 'root_evil', 'secret.txt', 't', 'rootx', 'root.bak',
         'sub_evil', 'x.txt', 'x', 'above.txt', 'top.txt', 'other', 'roo', 'nested.txt', 'elsewhere', 'data.txt']
 
@@ -399,9 +403,19 @@ def is_inside(root: str, p: str) -> bool:
     return q[:len(r)] == r
 
 
+def _handle_for(fs, raw, chain_prefix, h):
+    """A File of the raw filesystem as the object under test would hand it out (wrapped for a FileSystemChain)."""
+    from srctools.filesys import File
+    return h if chain_prefix is None else File(fs, h.path, h)
+
+
 def run_op(base: str, root_spec: str, chain_prefix, op: str, path_t: str) -> dict:
-    """Run one operation on a fresh filesystem object; returns outcome, data and the observed accesses."""
-    from srctools.filesys import RootEscapeError
+    """Run one operation on a fresh filesystem object; returns outcome, data and the observed accesses.
+
+    handle_loose: a File produced by an UNconstrained RawFileSystem on the same folder (its lookup is not observed, it
+    is exempt) is opened through the constrained one.  handle_made: a File built by hand, File(fs, path, path).
+    Both call open_bin, open_str and the cache key separately, each may raise RootEscapeError."""
+    from srctools.filesys import File, RawFileSystem, RootEscapeError
     path = path_t.replace('{BASE}', base)
     old = os.getcwd()
     os.chdir(base)
@@ -409,9 +423,22 @@ def run_op(base: str, root_spec: str, chain_prefix, op: str, path_t: str) -> dic
     try:
         fs, raw = make_fs(base, root_spec, chain_prefix)
         root = raw.path
+        handle = None
+        prep = None
+        if op == 'handle_loose' and chain_prefix is not None:
+            prep = 'no-handle:chain'          # a chain would open the wrapped handle through the unconstrained system
+        elif op == 'handle_loose':
+            try:
+                handle = _handle_for(fs, raw, chain_prefix, RawFileSystem(raw.path, constrain_path=False)[path])
+            except (OSError, ValueError, UnicodeError) as e:
+                prep = 'no-handle:' + type(e).__name__
+        elif op == 'handle_made':
+            handle = _handle_for(fs, raw, chain_prefix, File(raw, path, path))
         with observe() as ev:
             try:
-                if op == 'contains':
+                if prep is not None:
+                    out = prep
+                elif op == 'contains':
                     out = 'ok:' + str(path in fs)
                 elif op == 'getitem':
                     f = fs[path]
@@ -430,13 +457,46 @@ def run_op(base: str, root_spec: str, chain_prefix, op: str, path_t: str) -> dic
                         data.append(fh2.read())
                     out = 'ok:data'
                 elif op == 'walk':
-                    n = 0
+                    n = rejected = 0
                     for f in fs.walk_folder(path):
                         n += 1
-                        if n <= 40:
-                            with f.open_bin() as fh:
-                                data.append(fh.read().decode())
+                        if n <= 60:
+                            try:      # a yielded handle may itself be refused (literal backslash names); keep walking
+                                with f.open_bin() as fh:
+                                    data.append(fh.read().decode())
+                            except RootEscapeError:
+                                rejected += 1
                     out = f'ok:{n} files'
+                elif op in ('handle_loose', 'handle_made'):
+                    done = []
+                    # a handle of the unconstrained system opens through ITS system when asked itself: only the calls
+                    # made on the constrained filesystem count for handle_loose
+                    hows = ('fs.open_bin', 'fs.open_str', 'fs._get_cache_key') if op == 'handle_loose' else \
+                        ('fs.open_bin', 'fs.open_str', 'File.open_bin', 'File.open_str', 'File.cache_key')
+                    for how in hows:
+                        try:
+                            if how == 'fs.open_bin':
+                                with fs.open_bin(handle) as fh:
+                                    data.append(fh.read().decode())
+                            elif how == 'fs.open_str':
+                                with fs.open_str(handle) as fh2:
+                                    data.append(fh2.read())
+                            elif how == 'File.open_bin':
+                                with handle.open_bin() as fh:
+                                    data.append(fh.read().decode())
+                            elif how == 'File.open_str':
+                                with handle.open_str() as fh2:
+                                    data.append(fh2.read())
+                            elif how == 'fs._get_cache_key':
+                                fs._get_cache_key(handle)
+                            else:
+                                handle.cache_key()
+                            done.append(how)
+                        except RootEscapeError:
+                            pass
+                        except (OSError, ValueError, UnicodeError):
+                            done.append(how + ':error')
+                    out = 'ok:handle ' + ','.join(done) if done else 'RootEscapeError'
                 else:
                     raise AssertionError(op)
             except RootEscapeError:
@@ -457,7 +517,7 @@ def run_op(base: str, root_spec: str, chain_prefix, op: str, path_t: str) -> dic
         sub = os.path.join(root, chain_prefix)
         pre_escapes = sum(1 for k, p in events if is_inside(root, p) and not is_inside(sub, p))
     return {'outcome': out, 'root': root, 'events': events, 'escapes': escapes, 'leaked': leaked, 'data': data[:3],
-            'prefix_escapes': pre_escapes}
+            'prefix_escapes': pre_escapes, 'handle_path': None if handle is None else handle.path}
 
 
 def classify(root: str, p: str) -> str:
@@ -507,8 +567,9 @@ def search_trees(ck: Ck) -> None:
         if not r['escapes'] and not r['leaked']:
             return False
         where = r['escapes'][0][1] if r['escapes'] else os.path.join(base, r['leaked'][0][len('CONTENT-OF:'):])
-        key = 'escape-' + classify(r['root'], where)
+        key = ('handle-' if op.startswith('handle_') else '') + 'escape-' + classify(r['root'], where)
         rep = {'root': root_spec, 'root_config': label, 'chain_prefix': cp, 'op': op, 'path': path_t,
+               'file_handle_path': r['handle_path'],
                'outcome': r['outcome'], 'accessed_outside_root': [[k, p.replace(base, '{BASE}')] for k, p in r['escapes'][:4]],
                'data_returned': r['leaked'][:2], 'how': 'checks.c18.replay: builds the tree TREE under a fresh {BASE} and runs the op'}
         rank = (0 if r['leaked'] else 1, len(path_t))
@@ -522,12 +583,13 @@ def search_trees(ck: Ck) -> None:
     for label, root_spec in ROOT_CONFIGS:
         root_abs_t = '{BASE}/t/root/sub' if label == 'nested' else '{BASE}/t/root'
         tp = ['../root_evil/secret.txt', '..\\root_evil\\secret.txt', '../root_evil', '../rootx', '../root.bak/in.txt',
-              '{BASE}/t/root_evil/secret.txt', '../sub_evil/x.txt'] + targeted_paths(base, root_abs_t)
+              '{BASE}/t/root_evil/secret.txt', '../sub_evil/x.txt', '..\\above.txt', '..\\in.txt', '../above.txt',
+              '../in.txt', 'sub\\..\\..\\above.txt'] + targeted_paths(base, root_abs_t)
         for cp in CHAIN_PREFIXES:
             if cp is not None and label not in ('abs', 'relative', 'nested'):
                 continue
             for path_t in tp:
-                ops = OPS if cp is None or label == 'abs' else ['getitem', 'walk']
+                ops = OPS if cp is None or label == 'abs' else ['getitem', 'walk', 'handle_made']
                 for op in ops:
                     case(label, root_spec, cp, op, path_t)
     # 2. random segment paths
@@ -654,7 +716,7 @@ def run(ck: Ck) -> None:
     search_trees(ck)
     search_unify(ck)
     keys = {v['key'] for v in ck.violations}
-    if any(k.startswith('escape-') for k in keys):
+    if any(k.startswith(('escape-', 'handle-escape-')) for k in keys):
         ck.explain('instance:guard_is_a_sound_segmentwise_form')
         ck.explain('instance:every_fs_access_goes_through_resolve_path')
         ck.explain('instance:root_')
@@ -664,7 +726,7 @@ def run(ck: Ck) -> None:
     for stage, ob in (('exhaustive', 'correspondence:paths_exhaustive'), ('random', 'correspondence:paths_random')):
         fs = DISAGREE.get(stage, set())
         if fs and all(f == 'unify_path' and 'unify-path-escapes' in keys
-                      or f.startswith('resolve[') and any(k.startswith('escape-') for k in keys) for f in fs):
+                      or f.startswith('resolve[') and any(k.startswith(('escape-', 'handle-escape-')) for k in keys) for f in fs):
             ck.explain(ob)
 
 
